@@ -151,6 +151,9 @@ operator- (mpz_class v)
     case signedness::sign:
       if (v.m_i == INT64_MIN)
 	return mpz_class {(uint64_t) INT64_MAX + 1, signedness::unsign};
+      if (v.m_i >= 0)
+	// A non-negative value in signed representation.
+	return mpz_class {(uint64_t) -v.m_i, signedness::sign};
       return mpz_class {(uint64_t) -v.m_i, signedness::unsign};
 
     case signedness::unsign:
